@@ -1,6 +1,7 @@
 package rules
 
 import (
+	"math/big"
 	"fmt"
 	"go/types"
 	"sort"
@@ -254,9 +255,19 @@ func checkC03(c *Ctx) {
 				c.c05Sibling(fo)
 			}
 			c.c05Constructor(sib)
+			c.ctorDefaults("R05.6", "New"+sib, "config", map[string]*big.Rat{"FailedUpdateTTL": big.NewRat(20*1000000000, 1)})
 		}
 		c.borrow("C06", func() { c.c06WithTTL() }, func(o *coreObl) (string, bool) { return "R05.6", o.Rule == "R06.3" })
 	}, func(o *coreObl) (string, bool) { return "R03.4", o.Rule == "R05.6" || o.Rule == "R05.3" })
+	// "a lone Get" finds no key lock left behind by an earlier Get: the background build releases the entry registered for the key
+	// through its private copy of the key (C04 R04.1/R04.4) — a leaked entry makes every later lone Get a waiter on a closed lock
+	for _, sib := range siblings {
+		if fo := c.failover(sib); fo.Err == nil {
+			fo := fo
+			c.borrowKinds("C04", func() { c.c04Sibling(fo) }, "R03.1", sib+".Get:no-lock-left-behind", []string{"R04.1", "R04.4"},
+				"bg-release-key-from-caller-slice", "bg-uses-caller-key", "leak", "double-release", "waiter-releases")
+		}
+	}
 	c.c03ExpiryErrorTypes()
 }
 
